@@ -63,16 +63,16 @@ def discipline():
     closed = "Closed under the global context" in out2
     return rc == 0 and closed and not bad, n, [dict(zip(("pkg", "type", "field", "func", "kind"), b)) for b in bad], out2[-800:]
 
-def stress(secs):
+def stress(secs, focus=""):
     exe = os.path.join(C.BUILD, "bin", "race")
     env = dict(C.GOENV, CGO_ENABLED="1")
     with C.Lock("go"):
-        rc, out = C.sh(["go", "build", "-race", "-o", exe, "./cmd/race"], cwd=os.path.join(C.ROOT, "harness"), env=env, timeout=1800)
+        rc, out = C.sh(["go", "build", "-race", "-o", exe, "."], cwd=os.path.join(C.ROOT, "harness_race"), env=env, timeout=1800)
     if rc != 0:
         return None, "go build -race of the stress harness against /repo failed:\n" + out[-1500:]
     env2 = dict(os.environ, GORACE="halt_on_error=0 exitcode=0 history_size=3")
     try:
-        p = subprocess.run([exe, "-secs", str(secs)], stdout=subprocess.PIPE, stderr=subprocess.STDOUT, env=env2, timeout=secs * 6 + 120, text=True)
+        p = subprocess.run([exe, "-secs", str(secs)] + (["-focus", focus] if focus else []), stdout=subprocess.PIPE, stderr=subprocess.STDOUT, env=env2, timeout=secs * 6 + 120, text=True)
         out = p.stdout
     except subprocess.TimeoutExpired as e:
         out = (e.stdout or "") + "\nTIMEOUT (a workload hangs)"
@@ -93,6 +93,11 @@ def corr(tier, seed):
     if not ok:
         secs = max(secs, 45)          # the discipline broke: look harder for a concrete race
     out, err = stress(secs)
+    if not ok and bad and not err and "WARNING: DATA RACE" not in out:
+        # nothing yet: concentrate on the packages whose discipline broke
+        out2, err2 = stress(60 if tier == "quick" else 300, ",".join(sorted({b["pkg"] for b in bad})))
+        if not err2:
+            out = out2 + "\n" + out
     rounds, races = 0, []
     if err:
         res["build_error"] = (res.get("build_error", "") + "\n" + err).strip()
@@ -108,7 +113,10 @@ def corr(tier, seed):
                 continue
             seen.add(key)
             races.append({"what": "data race reported by the Go race detector under the stress workloads",
-                          "report": ("WARNING: DATA RACE" + b)[:1800], "replay_input": "build/bin/race -secs %d (go build -race ./cmd/race in harness/)" % secs})
+                          "report": ("WARNING: DATA RACE" + b)[:1800], "replay_input": "build/bin/race -secs %d (go build -race . in harness_race/)" % secs})
+        if "HANG" in out and not races:
+            viol_hang = re.findall(r'HANG (.*)', out)
+            races.append({"what": "a concurrent-safe operation never returned under the stress workloads: " + "; ".join(viol_hang[:3]), "report": "", "replay_input": "build/bin/race -secs %d" % secs})
         if "TIMEOUT" in out and not races:
             mism.append({"kind": "a stress workload did not finish (hang) - no race report"})
         if not m and not races and "TIMEOUT" not in out:
@@ -150,6 +158,6 @@ SPECS = {
         partial=["PARTIAL: data-race freedom itself is not a theorem; what is machine-checked is that every access in the current sources obeys the declared discipline",
                  "lock-held regions are approximated by the enclosing function (Guarded class lists functions)",
                  "code reached only through interfaces supplied by the user (listeners, executors, tickers) is outside the table"],
-        replay_how="re-run the -race stress harness: build/bin/race -secs N (built from harness/cmd/race against the current /repo)",
+        replay_how="re-run the -race stress harness: build/bin/race -secs N (built from harness_race/ against the current /repo)",
     ),
 }
